@@ -144,6 +144,8 @@ def run(ctx: Ctx):
         if not mname.startswith(SCOPE_PREFIXES):
             continue
         for fi in m.functions.values():
+            if mname == "pygaps.characterisation.isosteric_enth":
+                continue        # several isotherms at once: decided below by interpretation (common representation of all reads)
             for node, kind, kw in scan_function(fi):
                 nsites += 1
                 site = f"{fi.qualname.split('.')[-1]}|{kind}@{ast.unparse(node.func)}"
@@ -167,7 +169,11 @@ def run(ctx: Ctx):
                                              " - the numbers entering the analysis depend on how the isotherm happens to be stored"),
                        nontrivial_key=("site", fi.qualname, node.lineno),
                        sample={"rule": "R-pin", "site": f"{fi.short}:{node.lineno}", "call": kind, "pinned": {k: _show(v) for k, v in kw.items()}})
-    ctx.floor("isotherm read sites in characterisation", nsites, 20)
+    ctx.floor("isotherm read sites in characterisation", nsites, 18)
+    from .C19 import r_isosteric_wrapper
+    ctx.rule("R-pin (isosteric): isotherms stored in three different representations are all read in the representation of the first "
+             "(interpreted on isosteric_enthalpy with recording stub isotherms)")
+    r_isosteric_wrapper(ctx, model, prop="C15")
     for q in EXEMPT:
         mod, _, name = q.rpartition(".")
         if mod not in model.modules or name not in model.modules[mod].functions:
